@@ -7,7 +7,7 @@ HARNESS_TEST = "TestC18"
 COQ_MODEL = ["C18/Check.v", "Gen/C18Facts.v"]
 COQ_PROOF_DEPS = ["C18/Proofs.v"]
 COQ_OBLIG = ["C18/Property.v", "Gen/C18Oblig.v"]
-CASES_HEADER = "Require Import Nib.C18.Model Nib.C18.Spec Nib.C18.Check."
+CASES_HEADER = "Require Import Nib.C18.Model Nib.C18.Spec Nib.C18.Check Nib.Gen.C18Facts."
 CASE_TYPE = "case"
 MISMATCH_FN = "mismatch"
 VIOLATES_FN = "violates"
@@ -137,7 +137,8 @@ def to_coq_case(rec):
             msgs = "[" + "; ".join(_msg(_norm_msg(m, n)) for m in st.get("msgs") or []) + "]"
             o = "mko %d %d %s %s" % (so["class"], so["err"], _tbl(so.get("delta") or []), _reg(so.get("reg") or []))
             steps.append("CTx (mkt %d %s %s) (%s)" % (_signer(st), fee, msgs, o))
-    return ("{| c_env := {| e_collector := 0; e_gov := 1; e_blocked := [0; 2] |};\n"
+    return ("{| c_env := {| e_collector := 0; e_gov := 1; e_blocked := [0; 2];\n"
+            "                e_allowed_once := allowed_fees_break_after_first_match |};\n"
             "     c_wasm := [%s];\n     c_ids := %s; c_denoms := [0;1;2];\n     c_bal0 := %s;\n     c_reg0 := %s;\n"
             "     c_steps := [\n       %s] |}" % ("; ".join(wasm), _nl(ids), _tbl(obs["bal0"]), _reg(obs["reg0"]),
                                                   ";\n       ".join(steps)))
